@@ -171,7 +171,7 @@ class Exec:
                             env[x.i] = self.val(a)
                     continue
                 if x.op == 'ret':
-                    results.append((assum, self.val(x.a[0]) if x.a else None, writes, notes)); return
+                    results.append((assum, self.val(x.a[0]) if x.a else None, writes, notes, dict(mem))); return
                 if x.op in ('br', 'switch'):
                     break
                 self.step(x)
@@ -197,13 +197,13 @@ class Exec:
             for s_ in succs:
                 self._next(f, s_, b, (env, mem, assum, writes, notes), visited, region, results, walk)
 
-        walk(start, ({}, {}, {}, [], []), None, frozenset())
+        walk(start, ({}, dict(getattr(self, 'init_mem', {})), {}, [], []), None, frozenset())
         return results
 
     def _next(self, f, s_, b, state, visited, region, results, walk):
         env, mem, assum, writes, notes = state
         if region is not None and s_ == self.loop_header:
-            results.append((assum, None, writes, notes)); return      # one complete iteration
+            results.append((assum, None, writes, notes, dict(mem))); return      # one complete iteration
         if region is not None and s_ not in region:
             return                                                   # leaving the loop: not an iteration
         if (b, s_) in visited:
@@ -225,7 +225,7 @@ class Exec:
                 return self.env[o[1]]
             x = f.by_id[o[1]]
             if x.op == 'alloca':
-                return Ptr(('local', x.i))
+                return Ptr(('local', f.name, x.i))
             if x.ty.endswith('*'):
                 # a pointer defined outside the path (loop-carried cursor): its role is that of the parameter(s) it derives from
                 roles = set()
@@ -233,7 +233,7 @@ class Exec:
                     if r[0] == 'arg' and r[1] < len(self.argvals) and isinstance(self.argvals[r[1]], Ptr):
                         roles.add(self.argvals[r[1]].role)
                     elif r[0] == 'alloca':
-                        roles.add(('local', r[1]))
+                        roles.add(('local', f.name, r[1]))
                     else:
                         roles.add('?')
                 if len(roles) == 1 and '?' not in roles:
@@ -297,6 +297,11 @@ class Exec:
         if op == 'and' and any(o[0] == 'c' and int(o[1]) in (0xff,) for o in x.a):
             v = self.val([o for o in x.a if o[0] != 'c'][0])
             env[x.i] = v; return
+        if op == 'shl' and x.a[1][0] == 'c' and int(x.a[1][1]) in (8, 16, 24):
+            env[x.i] = self.val(x.a[0]); return            # replication of an 8-bit alpha into another channel
+        if op == 'or':
+            a, b = self.val(x.a[0]), self.val(x.a[1])
+            env[x.i] = a if (_is_expr(a) and _is_expr(b) and sympy.expand(a - b) == 0) else None; return
         if op == 'icmp':
             env[x.i] = None; return
         if op == 'select':
@@ -309,6 +314,20 @@ class Exec:
         f = self.f; env = self.env
         name = x.callee
         if name is None:
+            env[x.i] = None; return
+        if name.startswith('llvm.memset') and len(x.a) >= 2:
+            p = self.val(x.a[0]); v = self.val(x.a[1])
+            if isinstance(p, Ptr) and p.role == 'd' and _is_expr(v) and v == 0:
+                self.writes.append(('d', sympy.Integer(0)))
+            elif isinstance(p, Ptr) and p.role == 'd':
+                raise Unknown('memset of the destination with a non-zero value')
+            env[x.i] = None; return
+        if name.startswith('llvm.memcpy') and len(x.a) >= 2 and isinstance(self.val(x.a[0]), Ptr) and self.val(x.a[0]).role == 'd':
+            q = self.val(x.a[1])
+            if isinstance(q, Ptr) and q.role in ROLE_SYM:
+                self.writes.append(('d', ROLE_SYM[q.role]))
+            else:
+                raise Unknown('memcpy into the destination from an untracked pointer')
             env[x.i] = None; return
         if name.startswith('llvm.memcpy') and len(x.a) >= 2:
             # memcpy (&local, ps, 4): scalar load idiom
@@ -343,18 +362,46 @@ class Exec:
         try:
             sub = Exec(self.P, self.u, (self.V, self.ARITY, self.PRED), self.has_mask)
             sub.depth = self.depth; sub.loop_header = None
+            sub.init_mem = dict(self.mem)
             res = sub.run_paths(g, args)
         finally:
             self.depth -= 1
             self.f, self.env, self.mem, self.argvals, self.writes, self.assum = saved
-        # merge: if all paths agree after applying their assumptions, take the general form; else keep a case list
+        if any(w for a, v, w, n, m in res):
+            raise Unknown('helper %s writes the destination' % name)
+        visible = set(self.mem) | {p.role for p in args if isinstance(p, Ptr) and isinstance(p.role, tuple)}
         if len(res) == 1:
-            env[x.i] = res[0][1]; return
-        # shortcuts that agree with the general formula under their own assumption are absorbed by it
-        general = [v for a, v, w, n in res if not a and not n and _is_expr(v)]
-        if general and all(_is_expr(v) and vanishes(v - general[0], a) for a, v, w, n in res if a or n):
-            env[x.i] = general[0]; return
-        env[x.i] = ('cases', [(a, v, n) for a, v, w, n in res])
+            a, v, w, n, m = res[0]
+            if a:
+                raise Unknown('helper %s has a single conditional path' % name)
+            for k in visible:
+                if k in m:
+                    self.mem[k] = m[k]
+            env[x.i] = v; return
+        # shortcuts that agree with the general path under their own assumption are absorbed by it (return value and memory effects)
+        general = [(v, m) for a, v, w, n, m in res if not a and not n]
+        if general:
+            gv, gm = general[0]
+            okc = True
+            for a, v, w, n, m in res:
+                if not a and not n:
+                    continue
+                if gv is not None and not (_is_expr(v) and _is_expr(gv) and vanishes(v - gv, a)):
+                    okc = False
+                for k in visible:
+                    x1, x2 = m.get(k), gm.get(k)
+                    if x1 is None and x2 is None:
+                        continue
+                    if not (_is_expr(x1) and _is_expr(x2) and vanishes(x1 - x2, a)):
+                        okc = False
+            if okc:
+                for k in visible:
+                    if k in gm:
+                        self.mem[k] = gm[k]
+                env[x.i] = gv; return
+        if all(not (set(m) & visible) or all(m.get(k) == self.mem.get(k) for k in visible) for a, v, w, n, m in res):
+            env[x.i] = ('cases', [(a, v, n) for a, v, w, n, m in res]); return
+        raise Unknown('helper %s has paths whose effects the general path does not subsume' % name)
 
     def decide(self, t):
         """('const', bool) | ('assume', subs_true, subs_false) | ('pixelcond',) | None"""
@@ -498,7 +545,7 @@ def analyse_combiner(P, u, voc, f, opname, ca):
         # locate the loop function: f itself or a callee receiving pd
         targets = []
         roles0 = [None, None, Ptr('d'), Ptr('s'), Ptr('m') if has_mask else Ptr(None), None]
-        if loops.get(f.name):
+        if loops.get(f.name) or not any(u.functions.get(c.callee or '') is not None and loops.get(c.callee) for c in f.calls()):
             targets.append((f, roles0))
         else:
             # wrapper: if (pm) core_mask (pd, ps, pm, w) else core_no_mask (pd, ps, w)
@@ -522,16 +569,23 @@ def analyse_combiner(P, u, voc, f, opname, ca):
         if not targets:
             problems.append(('incomplete', '%s: no pixel loop found (mask=%s)' % (f.name, has_mask))); continue
         for g, roles in targets:
-            for L in loops[g.name]:
+            live = _config_reach(P, u, voc, g, roles, has_mask)
+            todo = [L for L in loops[g.name] if L['header'] in live]      # loops of the other mask configuration are skipped
+            if not todo:
+                todo = [dict(header=None, blocks=None, depth=1, parent=-1)]       # whole-row operation (memset/memcpy) or no-op
+            for L in todo:
                 if L['depth'] != 1 and any(l2['parent'] == L['header'] for l2 in loops[g.name]):
                     continue
                 ex = Exec(P, u, voc, has_mask); ex.loop_header = L['header']
                 try:
-                    res = ex.run_paths(g, roles, region=set(L['blocks']), start=L['header'])
+                    if L['header'] is None:
+                        res = ex.run_paths(g, roles)
+                    else:
+                        res = ex.run_paths(g, roles, region=set(L['blocks']), start=L['header'])
                 except Unknown as e:
-                    problems.append(('incomplete', '%s loop at block %d: %s' % (g.name, L['header'], e))); continue
+                    problems.append(('incomplete', '%s loop at block %s: %s' % (g.name, L['header'], e))); continue
                 wrote_any = False
-                for assum, rv, writes, notes in res:
+                for assum, rv, writes, notes, _m in res:
                     vals = [v for r, v in writes if r == 'd']
                     if len(vals) > 1:
                         # several stores of the same value (vector + tail) are fine if equal
@@ -542,7 +596,7 @@ def analyse_combiner(P, u, voc, f, opname, ca):
                     for a2, got, n2 in got_list:
                         sub = dict(assum); sub.update(a2)
                         if got is None or not _is_expr(got):
-                            problems.append(('incomplete', '%s loop at block %d: the value written is not expressible in the helper vocabulary' % (g.name, L['header']))); continue
+                            problems.append(('incomplete', '%s loop at block %s: the value written is not expressible in the helper vocabulary' % (g.name, L['header']))); continue
                         if not has_mask and got.has(M) or got.has(MA) and not has_mask:
                             pass
                         Es = E
@@ -551,12 +605,35 @@ def analyse_combiner(P, u, voc, f, opname, ca):
                             Es = sympy.expand(E.subs({S: S * MA, SA: SA * MA}, simultaneous=True))
                         if not vanishes(got - Es, sub):
                             if notes or n2:
-                                problems.append(('incomplete', '%s loop at block %d: result %s differs from %s under a condition the rule does not interpret' % (g.name, L['header'], got, Es)))
+                                problems.append(('incomplete', '%s loop at block %s: result %s differs from %s under a condition the rule does not interpret' % (g.name, L['header'], got, Es)))
                             else:
-                                problems.append(('violation', '%s (loop at block %d%s) computes %s%s; operator %s%s is %s' % (g.name, L['header'], ', with mask' if has_mask and not ca else '', got, (' when ' + _asm(sub)) if sub else '', opname, ' (component alpha)' if ca else '', Es)))
-                if not wrote_any and res:
-                    problems.append(('incomplete', '%s loop at block %d writes no destination pixel' % (g.name, L['header'])))
+                                problems.append(('violation', '%s (loop at block %s%s) computes %s%s; operator %s%s is %s' % (g.name, L['header'], ', with mask' if has_mask and not ca else '', got, (' when ' + _asm(sub)) if sub else '', opname, ' (component alpha)' if ca else '', Es)))
+                if not wrote_any and res and sympy.expand(E - D) != 0:
+                    problems.append(('incomplete', '%s loop at block %s writes no destination pixel' % (g.name, L['header'])))
     return problems
+
+
+def _config_reach(P, u, voc, g, roles, has_mask):
+    """blocks of g reachable from its entry when tests of the (non-)NULL mask/source pointers are folded"""
+    ex = Exec(P, u, voc, has_mask); ex.loop_header = None
+    ex.f = g; ex.env = {}; ex.mem = {}; ex.argvals = roles; ex.writes = []; ex.assum = {}
+    seen = set(); work = [0]
+    while work:
+        b = work.pop()
+        if b in seen:
+            continue
+        seen.add(b)
+        t = g.blocks[b].term
+        nxt = list(g.blocks[b].succ)
+        if t.op == 'br' and t.a:
+            try:
+                d = ex.decide(t)
+            except Unknown:
+                d = None
+            if d is not None and d[0] == 'const':
+                nxt = [t.d['succ'][0] if d[1] else t.d['succ'][1]]
+        work.extend(nxt)
+    return seen
 
 
 def _asm(sub):
@@ -602,7 +679,7 @@ def masked_source_ok(P, u, voc, helper_names):
             except Unknown as e:
                 out.append((hn, 'incomplete', str(e))); continue
             want = S * MA if has_mask else S
-            for assum, rv, writes, notes in res:
+            for assum, rv, writes, notes, _m in res:
                 for a2, got, n2 in _expand_cases(rv):
                     sub = dict(assum); sub.update(a2)
                     if not _is_expr(got):
@@ -650,3 +727,97 @@ def r9_simd_combiners(ck, P):
                 ck.ok(R, where + ' (' + probs[0][1] + ')')
             else:
                 ck.ok(R, where)
+
+
+# ------------------------------------------------------------------------------------------ C01-R4: the C combiners
+C_PRIMS = {
+    'UN8x4_MUL_UN8': ('px_mul_un8', 2), 'UN8x4_MUL_UN8_ADD_UN8x4': ('px_mul_un8_add_un8x4', 3),
+    'UN8x4_MUL_UN8_ADD_UN8x4_MUL_UN8': ('px_mul_un8_add_un8x4_mul_un8', 4), 'UN8x4_MUL_UN8x4': ('px_mul_un8x4', 2),
+    'UN8x4_MUL_UN8x4_ADD_UN8x4': ('px_mul_un8x4_add_un8x4', 3), 'UN8x4_MUL_UN8x4_ADD_UN8x4_MUL_UN8': ('px_mul_un8x4_add_un8x4_mul_un8', 4),
+    'UN8x4_ADD_UN8x4': ('px_add_un8x4', 2),
+}
+
+
+def derive_combine32(P):
+    """scratch copy of the current pixman-combine32.c next to a derived pixman-combine32.h whose pixel primitives are opaque calls"""
+    import os, re, hashlib
+    from .. import build, facts as _facts
+    R = build.repo()
+    hdr = open(os.path.join(R, 'pixman', 'pixman-combine32.h')).read()
+    src = open(os.path.join(R, 'pixman', 'pixman-combine32.c')).read()
+    lines = hdr.split('\n'); out = []; i = 0; replaced = set()
+    decl = []
+    for nm, (fn, ar) in C_PRIMS.items():
+        decl.append('extern uint32_t %s (%s);' % (fn, ', '.join(['uint32_t'] * ar)))
+    while i < len(lines):
+        m = re.match(r'#define\s+(\w+)\s*\(([^)]*)\)', lines[i])
+        if m and m.group(1) in C_PRIMS:
+            fn, ar = C_PRIMS[m.group(1)]
+            params = [p.strip() for p in m.group(2).split(',')]
+            while lines[i].rstrip().endswith('\\'):
+                i += 1
+            i += 1
+            if len(params) != ar:
+                raise AnalysisBroken('primitive %s now takes %d parameters' % (m.group(1), len(params)))
+            out.append('#define %s(%s) do { %s = %s (%s); } while (0)' % (m.group(1), ', '.join(params), params[0], fn, ', '.join('(%s)' % p for p in params)))
+            replaced.add(m.group(1))
+            continue
+        out.append(lines[i]); i += 1
+    missing = set(C_PRIMS) - replaced
+    if missing:
+        raise AnalysisBroken('pixel primitives %s no longer defined in pixman-combine32.h' % sorted(missing))
+    text_h = '#include <stdint.h>\n' + '\n'.join(decl) + '\n' + '\n'.join(out)
+    key = hashlib.sha1((text_h + src).encode()).hexdigest()[:12]
+    d = os.path.join(build.cache_dir(), 'gen', 'c32-' + key); os.makedirs(d, exist_ok=True)
+    with open(os.path.join(d, 'pixman-combine32.h'), 'w') as f:
+        f.write(text_h)
+    with open(os.path.join(d, 'pixman-combine32.c'), 'w') as f:
+        f.write(src)
+    p = build.shim_facts(os.path.join(d, 'pixman-combine32.c'), mode='A', flags=['-DHAVE_CONFIG_H'], loops=True)
+    import json
+    S_ = _facts.Program({'pixman-combine32.c(derived)': p})
+    u = list(S_.units.values())[0]
+    loops = {fd['name']: fd.get('loops', []) for fd in json.load(open(p))['functions']}
+    return S_, u, loops
+
+
+def r4_c_combiners(ck, P):
+    R = ck.rule('C01-R4', 'every 8-bit C combiner of pixman-combine32.c (the ones SSE2 shadows in every test run) computes s*Fa + d*Fb with the factors of the operator it is registered under, over the pixel primitives of pixman-combine32.h', floor=20)
+    ops, N = algebra.operators(P)
+    inv = {v: k for k, v in ops.items()}
+    S_, u, loops = derive_combine32(P)
+    _LOOPS[(u.name, __import__('pxv.build', fromlist=['x']).tree_hash())] = loops
+    ss = algebra.slot_stores(S_)
+    voc = voc_c()
+    n = 0
+    for (un, creator, slot), m in sorted(ss.items()):
+        if slot not in ('combine_32', 'combine_32_ca'):
+            continue
+        ca = slot.endswith('_ca')
+        for idx, (fn, x) in sorted(m.items(), key=lambda kv: int(kv[0]) if kv[0].lstrip('-').isdigit() else 0):
+            if not idx.lstrip('-').isdigit() or int(idx) not in inv:
+                continue
+            opname = inv[int(idx)]
+            if opname not in algebra.ORACLE:
+                continue
+            f = u.functions.get(fn)
+            if f is None:
+                ck.incomplete(R, '%s not found in the derived unit' % fn); continue
+            n += 1
+            where = '%s[%s] -> %s' % (slot, opname, fn)
+            try:
+                probs = analyse_combiner(S_, u, voc, f, opname, ca)
+            except Unknown as e:
+                probs = [('incomplete', str(e))]
+            viol = [p for p in probs if p[0] == 'violation']
+            inc = [p for p in probs if p[0] == 'incomplete']
+            if viol:
+                ck.violation(R, fn, '%s[%s] (pixman-combine32.c)' % (slot, opname), viol[0][1], 'pixman-combine32.c:%d' % f.line)
+            elif inc:
+                ck.note('C01-R4 not analysed: %s: %s' % (where, inc[0][1]))
+            elif probs and probs[0][0] == 'skip':
+                ck.ok(R, where + ' (' + probs[0][1] + ')')
+            else:
+                ck.ok(R, where)
+    if n < 20:
+        ck.incomplete(R, 'only %d Porter-Duff C combiners found' % n)
